@@ -97,6 +97,7 @@ func (p *Provider) Run(ctx context.Context, deps core.ProviderDeps) (err error) 
 func (p *Provider) runFullScan(ctx context.Context) error {
 	// With chosen cases, limit counts only ammo that passed the filter, as with preload.
 	filtered := len(p.Config.ChosenCases) > 0
+	passCounter, _ := p.Decoder.(interface{ PassNum() uint })
 	sent := uint(0)
 	for {
 		if err := ctx.Err(); err != nil {
@@ -112,10 +113,17 @@ func (p *Provider) runFullScan(ctx context.Context) error {
 		if err != nil {
 			if errors.Is(err, decoders.ErrAmmoLimit) || errors.Is(err, decoders.ErrPassLimit) {
 				err = nil
+				if filtered && sent == 0 {
+					err = decoders.ErrNoAmmo
+				}
 			}
 			return err
 		}
 		if !confutil.IsChosenCase(ammo.Tag(), p.Config.ChosenCases) {
+			if sent == 0 && passCounter != nil && passCounter.PassNum() > 0 {
+				// Whole file has been read, and nothing was chosen. Next passes will be the same.
+				return decoders.ErrNoAmmo
+			}
 			continue
 		}
 
